@@ -4,7 +4,7 @@ import Op2Proofs.Bmp.Arith
 # What acceptance by the BMP reader says about the returned object (`Loaded`)
 -/
 namespace Op2.Bmp
-open Op2 Op2.Parser
+open Op2 Op2.Parser Op2.Parser.BmpInv
 
 theorem decU32_lt (b : Bytes) : decU32 b < W32 := by
   unfold decU32 W32
